@@ -561,7 +561,7 @@ func passComponents(r *common.Run, st *stats) {
 func printedForms(thorough bool) map[string][]string {
 	z8 := time.FixedZone("", -8*3600)
 	nodes := []*vals.Spec{vals.NodeSpec("/t", "a"), vals.NodeSpec("/t/u", `b"@[`), vals.NodeSpec("/_", "x]")}
-	preds := []*vals.Spec{vals.ImmSpec("p"), vals.TempSpec("p", time.Date(2006, 1, 2, 15, 4, 5, 999999999, z8)), vals.ImmSpec(`q"]`), vals.TempSpec(`\`, model.T1)}
+	preds := []*vals.Spec{vals.ImmSpec("p"), vals.TempSpec("p", time.Date(2006, 1, 2, 15, 4, 5, 999999999, z8)), vals.ImmSpec(`q"]`), vals.TempSpec(`\`, model.T1), vals.ImmSpec(`say"^^type:text`)}
 	lits := []*vals.Spec{vals.BoolSpec(true), vals.IntSpec(-1), vals.FloatSpec(1e21), vals.TextSpec(""), vals.TextSpec("ab"),
 		vals.BlobSpec([]byte{}), vals.BlobSpec([]byte{1, 255}), vals.TextSpec(`"^^type:`)}
 	if thorough {
@@ -589,6 +589,10 @@ func printedForms(thorough bool) map[string][]string {
 	}
 	for _, s := range preds {
 		out["predicate"] = append(out["predicate"], pr(s))
+		// the same id with its quotes spelled by other escapes the parser accepts: what it accepts must print to what it accepts
+		if t := pr(s); strings.Contains(t, `\"`) {
+			out["predicate"] = append(out["predicate"], strings.ReplaceAll(t, `\"`, `\x22`), strings.ReplaceAll(t, `\"`, `\u0022`))
+		}
 	}
 	for _, s := range lits {
 		out["literal"] = append(out["literal"], pr(s))
